@@ -372,7 +372,11 @@ pub fn eval(c: &Case) -> (Vec<Finding>, String, bool) {
         }
     }
     if !out.ok {
-        // admissible reasons: consent, or a needed secret is missing
+        // admissible reasons: consent, or a needed secret is missing.  A credential that carries
+        // BOTH secrets lacks none, whatever the configuration of the authenticator that serves it
+        if !c.register && capable && c.secrets == 2 && c.secret_len.is_none() && !(c.uv_required && !c.verified) {
+            bad("failure-without-admissible-reason", format!("the user consented as required and the credential carries both secrets, yet the assertion failed ({})", out.err));
+        }
         return (fs, format!("{op}:err"), c.uv_required && !c.verified);
     }
     let recs = store.0.lock().unwrap().recs_ordered();
